@@ -62,7 +62,7 @@ w("C02", "twin: handler variable renamed", BP + "array.py",
 
 # ---- C03 -------------------------------------------------------------------------------------
 w("C03", "index validated on the unparsed series again", "pandera/api/pandas/array.py",
-  "            validated_obj = self.index.validate(\n                validated_obj,", "            validated_obj = self.index.validate(\n                check_obj,")
+  "                validated_obj = self.index.validate(\n                    validated_obj,", "                validated_obj = self.index.validate(\n                    check_obj,")
 w("C03", "polars validate returns the input frame", "pandera/api/polars/container.py",
   "        if is_dataframe:\n            output = output.collect()\n\n        return output", "        if is_dataframe:\n            output = output.collect()\n            return output\n\n        return check_obj")
 w("C03", "parser result dropped in the array backend", BP + "array.py",
